@@ -21,6 +21,10 @@ def kde_density(x):
     bw = 1.06 * np.std(x, ddof=1) * len(x) ** (-1 / 5)
     if not bw > 0 or not math.isfinite(bw):
         raise Degenerate("zero bandwidth")
+    if np.ptp(x) <= 1e-9 * max(1.0, float(np.max(np.abs(x)))):
+        # a window that is constant up to rounding: whether its standard deviation comes out as exactly 0 (refused by
+        # scikit-learn) or as ~1e-17 depends on the summation algorithm (numpy vs pandas), so it is outside the domain too
+        raise Degenerate("zero bandwidth up to rounding")
     k = KernelDensity(bandwidth=bw, kernel="epanechnikov").fit(x.reshape(-1, 1))
     return np.exp(k.score_samples(x.reshape(-1, 1)))
 
